@@ -170,7 +170,20 @@ func Tier() int {
 	return 0
 }
 
-func Shard() int { return 0 }
+// Shard(n) partitions a harness into n independently explored parts; the
+// engine runs the harness once per shard (in parallel) with Shard returning
+// 0..n-1.  Natively the shard of the counterexample is replayed.
+func Shard(n int) int {
+	mu.Lock()
+	defer mu.Unlock()
+	load()
+	v, ok := values["$shard"]
+	if !ok {
+		return 0
+	}
+	u, _ := strconv.Atoi(strings.TrimPrefix(v, "i:"))
+	return u
+}
 
 // AllowPanic: panics after this point end the path instead of being violations.
 func AllowPanic() {}
